@@ -354,7 +354,23 @@ def _calendar_edges(rng):
         yield _base(rng, fn='derive', start=start, tz=tz, expire=expire, issuer=fast(), us=rng.choice([0, 1, 999999]))
 
 
+def _dst_cases(rng):
+    """start instants (UTC) shortly before a change of offset of the zone the start_time is expressed in, durations that
+    reach across it.  NOT part of the generated stream: derive_cert adds expire_sec to the wall-clock reading of the zone
+    (candidate_fixes/C16-dst-zone-duration); set VERIF_C16_DST=1 to run them (clean with the candidate fix applied)"""
+    for zone, changes in (('America/New_York', ([2024, 3, 10, 7, 0, 0], [2024, 11, 3, 6, 0, 0])),
+                          ('Europe/Berlin', ([2025, 3, 30, 1, 0, 0], [2025, 10, 26, 1, 0, 0])),
+                          ('Australia/Lord_Howe', ([2024, 4, 6, 15, 0, 0], [2024, 10, 5, 15, 30, 0]))):
+        for ch in changes:
+            for before, expire in ((3600, 7200), (86400 - 1, 86400), (19 * 3600, 86400), (1, 1), (10 * 86400, 30 * 86400), (60, 59)):
+                start = _fields(_dt.datetime(*ch) - _dt.timedelta(seconds=before))
+                yield _base(rng, fn='derive', start=start, expire=expire, zone=zone, tz=None, issuer=rng.choice(FAST_ISSUERS))
+
+
 def cases(rng, tier):
+    import os
+    if os.environ.get('VERIF_C16_DST') == '1':
+        yield from _dst_cases(rng)
     yield from _calendar_edges(rng)
     yield from _sweep(rng, tier)
     yield from _sizes(rng, tier)
@@ -443,6 +459,10 @@ def _inst(dt):
 def _start_dt(case):
     """the start_time handed to derive_cert: case['start'] is the requested instant in UTC; 'tz': None = naive,
     0 = aware UTC, other = the same instant expressed in a zone that many hours from UTC"""
+    if case.get('zone'):
+        # a zone whose offset varies (daylight saving): outside the model, oracle only
+        from zoneinfo import ZoneInfo
+        return _dt.datetime(*case['start'], case.get('us', 0), tzinfo=_dt.timezone.utc).astimezone(ZoneInfo(case['zone']))
     start = _dt.datetime(*case['start'], case.get('us', 0), tzinfo=None if case.get('tz') is None else _dt.timezone.utc)
     if case.get('tz'):
         start = start.astimezone(_dt.timezone(_dt.timedelta(hours=case['tz'])))
@@ -588,7 +608,8 @@ def run_impl(case):
                     sv.derive_cert('/prior/KEY/%d' % i, 'earlier', b'\x30' * (50 + i), inner,
                                    _dt.datetime(2001, 2, 3, 4, 5, 6), 77)
                 else:
-                    sv.self_sign([b'\x08\x05prior', b'\x08\x03KEY', b'\x08\x01\x01'], b'\x31' * 91, PK.Recorder(inner))
+                    sv.derive_cert([b'\x08\x05prior', b'\x08\x03KEY', b'\x08\x01\x01'], b'\x08\x01x', b'\x31' * 300,
+                                   PK.Recorder(inner), _dt.datetime(1999, 12, 31, 23, 59, 59), 0)
             if case['fn'] == 'self':
                 name, wire = sv.self_sign(key_name, pub_arg, rec)
                 issuer = b'\x08\x04self'         # NDN certificate naming: the issuer id of a self-signed certificate
@@ -663,8 +684,8 @@ def model_line(case, impl):
         return _cal_line(case)
     if impl['made'][0] == 'calendar':
         # the implementation raised in its calendar arithmetic: the model must raise the same class from the same inputs
-        return 'C16 times ' + _issue(case)
-    if impl['made'][0] != 'ok' or impl.get('sig') is None:
+        return None if case.get('zone') else 'C16 times ' + _issue(case)
+    if impl['made'][0] != 'ok' or impl.get('sig') is None or case.get('zone'):
         return None
     kn = ','.join(T.hx(bytes.fromhex(c)) for c in case['key_name']) or '.'
     return (f"C16 cert {kn} {impl['issuer']} {impl['version']} {T.hx(bytes.fromhex(impl['pub']))} {impl['signer_info']} "
